@@ -804,6 +804,8 @@ class SuitBitfield(SuitObject):
         value = []
         bitsum = 0
         bitval = cls.deserialize_cbor(cbstr)
+        if not isinstance(bitval, int):
+            raise ValueError(f"Unable to parse bitfield from: {bitval}")
         for bit in range(cls._bit_length):
             bitmask = 1 << bit
             if bitval & bitmask:
